@@ -67,6 +67,11 @@ pub struct Net {
 /// `n - 2` core vertices on a directed ring plus random chords (strongly connected), vertex `n-2` with only an
 /// outgoing edge (never a destination), vertex `n-1` isolated
 pub fn gen_net(rng: &mut Rng, n: usize) -> Net {
+    gen_net_speeds(rng, n, &[25.0, 40.0, 55.0, 64.36, 112.0])
+}
+
+/// `speed_pool`: the posted speeds (km/h) the edges draw from
+pub fn gen_net_speeds(rng: &mut Rng, n: usize, speed_pool: &[f64]) -> Net {
     let mut xy = vec![];
     for i in 0..n {
         let gx = (i % 6) as f64;
@@ -94,7 +99,7 @@ pub fn gen_net(rng: &mut Rng, n: usize) -> Net {
         // irrational-looking lengths: equal-cost alternatives are (practically) excluded
         e.2 = (d * (1.0 + rng.uniform(0.05, 0.8))).max(1.0);
     }
-    let speeds = edges.iter().map(|_| [25.0, 40.0, 55.0, 64.36, 112.0][rng.below(5)]).collect();
+    let speeds = edges.iter().map(|_| speed_pool[rng.below(speed_pool.len())]).collect();
     let mut reach = vec![vec![false; n]; n];
     for a in 0..n {
         reach[a][a] = true;
@@ -234,6 +239,8 @@ impl PluginSpec {
 pub enum Traversal {
     Distance,
     Speed,
+    /// energy model (Toyota Camry random forest) over the speed table; `cache`: a float cache with whole-number keys
+    Energy { cache: bool },
 }
 
 pub struct Fixture {
@@ -250,14 +257,22 @@ pub struct Fixture {
 
 pub fn config_toml(dir: &Path, parallelism: usize, traversal: Traversal, plugins: &[PluginSpec], persist: bool, edge_oriented: bool, solution_limit: Option<usize>) -> String {
     let d = dir.to_str().unwrap();
-    // both variants use the speed-table traversal model (state: distance and time); they differ in the objective
-    let (wd, wt) = match traversal {
-        Traversal::Distance => (1, 0),
-        Traversal::Speed => (1, 1),
+    // the first two variants use the speed-table traversal model (state: distance and time) and differ in the objective
+    let trav = match traversal {
+        Traversal::Distance | Traversal::Speed => {
+            let (wd, wt) = if traversal == Traversal::Distance { (1, 0) } else { (1, 1) };
+            format!(
+                "[traversal]\ntype = \"speed_table\"\nspeed_table_input_file = \"{d}/speeds.csv\"\nspeed_unit = \"kilometers_per_hour\"\noutput_time_unit = \"minutes\"\n[cost]\ncost_aggregation = \"sum\"\n[cost.weights]\ndistance = {wd}\ntime = {wt}\n[cost.vehicle_rates.time]\ntype = \"raw\"\n[cost.vehicle_rates.distance]\ntype = \"raw\"\n"
+            )
+        }
+        Traversal::Energy { cache } => {
+            let cache_line = if cache { "float_cache_policy = { cache_size = 1000, key_precisions = [0, 0] }\n" } else { "" };
+            format!(
+                "[traversal]\ntype = \"energy_model\"\ngrade_table_grade_unit = \"decimal\"\ntime_unit = \"minutes\"\ndistance_unit = \"miles\"\n[traversal.time_model]\ntype = \"speed_table\"\nspeed_table_input_file = \"{d}/speeds.csv\"\nspeed_unit = \"kilometers_per_hour\"\ndistance_unit = \"miles\"\ntime_unit = \"minutes\"\n[[traversal.vehicles]]\nname = \"camry\"\ntype = \"ice\"\nmodel_input_file = \"{model}\"\nmodel_type = \"smartcore\"\nspeed_unit = \"miles_per_hour\"\ngrade_unit = \"decimal\"\nenergy_rate_unit = \"gallons_gasoline_per_mile\"\nideal_energy_rate = 0.02857143\nreal_world_energy_adjustment = 1.166\n{cache_line}[cost]\ncost_aggregation = \"sum\"\n[cost.weights]\ndistance = 1\ntime = 1\nenergy_liquid = 1\n[cost.vehicle_rates.time]\ntype = \"raw\"\n[cost.vehicle_rates.distance]\ntype = \"raw\"\n[cost.vehicle_rates.energy_liquid]\ntype = \"raw\"\n",
+                model = "/repo/rust/routee-compass-powertrain/src/routee/test/Toyota_Camry.bin"
+            )
+        }
     };
-    let trav = format!(
-        "[traversal]\ntype = \"speed_table\"\nspeed_table_input_file = \"{d}/speeds.csv\"\nspeed_unit = \"kilometers_per_hour\"\noutput_time_unit = \"minutes\"\n[cost]\ncost_aggregation = \"sum\"\n[cost.weights]\ndistance = {wd}\ntime = {wt}\n[cost.vehicle_rates.time]\ntype = \"raw\"\n[cost.vehicle_rates.distance]\ntype = \"raw\"\n"
-    );
     let term = match solution_limit {
         Some(l) => format!("[termination]\ntype = \"solution_size\"\nlimit = {}\n", l),
         None => String::new(),
@@ -861,6 +876,9 @@ fn valid_query(fx: &Fixture, rng: &mut Rng) -> GenQ {
     }
     od_fields(fx, &mut m, o, d);
     let sure = decorate(fx, rng, &mut m, o, d, exact);
+    if matches!(fx.traversal, Traversal::Energy { .. }) {
+        m.insert("model_name".into(), json!("camry"));
+    }
     if rng.chance(1, 6) {
         m.insert("weights".into(), json!({"distance": rng.range(1, 3), "time": rng.range(0, 3)}));
     }
@@ -1214,6 +1232,8 @@ fn fmt_table(fx: &Fixture, batch: &[Value]) -> String {
 // ---------------------------------------------------------------------------------------------
 // one case: plan the jobs, run them in the child, emit the correspondence lines, apply the oracle
 
+static DEAD_CHILDREN: std::sync::atomic::AtomicUsize = std::sync::atomic::AtomicUsize::new(0);
+
 #[derive(Clone, Copy, PartialEq, Debug)]
 enum JobKind {
     Main,
@@ -1351,7 +1371,14 @@ fn run_case(ctx: &mut Ctx, fx: &Fixture, persist_cfg: bool, gens: &[GenQ], plans
         return;
     }
     let jobs: Vec<Job> = plans.iter().map(|p| p.job.clone()).collect();
+    // a regression that makes children hang costs `secs` per case: after a few dead children the cases holding a
+    // historical witness are run with a short fuse (they are reported all the same)
+    let dead_so_far = DEAD_CHILDREN.load(std::sync::atomic::Ordering::Relaxed);
+    let secs = if dead_so_far >= 4 && gens.iter().any(|g| g.danger.is_some()) { 2 } else { secs };
     let rep = forked(fx, &batch, &jobs, true, secs);
+    if !rep.complete {
+        DEAD_CHILDREN.fetch_add(1, std::sync::atomic::Ordering::Relaxed);
+    }
     let fmt = fmt_table(fx, &batch);
     let danger = gens.iter().find_map(|g| g.danger);
     let first_idx = idxs.iter().flatten().next().copied().unwrap_or(0);
@@ -1597,7 +1624,11 @@ fn bal_queries(rng: &mut Rng, n: usize) -> Vec<Value> {
 fn make_fixture(root: &Path, id: usize, rng: &mut Rng, label: &str, plugins: Vec<PluginSpec>, traversal: Traversal, edge_oriented: bool, solution_limit: Option<usize>, parallelism: usize, persist: bool) -> Option<(Fixture, bool)> {
     let dir = root.join(format!("fx{}", id));
     let n = 12 + rng.below(26);
-    let net = gen_net(rng, n);
+    let net = match traversal {
+        // speeds whose mph values share whole-number cache keys (29.5 .. 30.4 -> 30, 49.8 / 50.3 -> 50)
+        Traversal::Energy { .. } => gen_net_speeds(rng, n, &[47.5, 48.0, 48.6, 49.0, 80.2, 80.9]),
+        _ => gen_net(rng, n),
+    };
     write_net(&dir, &net);
     let toml = config_toml(&dir, parallelism, traversal, &plugins, persist, edge_oriented, solution_limit);
     match build_app(&dir, &toml) {
@@ -1690,6 +1721,33 @@ fn plan_jobs(rng: &mut Rng, _fx: &Fixture, persist_cfg: bool, n: usize, profile:
     plans
 }
 
+/// the same batch, offered in two orders to two *fresh* processes (cold cache each): with whole-number cache keys
+/// the first edge predicted under a key fixes the rate of every other speed with that key, so the responses
+/// depend on which query ran first
+fn cache_demo(ctx: &mut Ctx, fx: &Fixture, rng: &mut Rng) {
+    for attempt in 0..6 {
+        let gens: Vec<GenQ> = (0..6).map(|_| valid_query(fx, rng)).collect();
+        let batch: Vec<Value> = gens.iter().map(|g| g.q.clone()).collect();
+        let ident: Vec<usize> = (0..batch.len()).collect();
+        let rev: Vec<usize> = ident.iter().rev().copied().collect();
+        let cfg = run_cfg_value(Some(1), Some(true));
+        let Some(idx) = ctx.begin() else { continue };
+        let a = forked(fx, &batch, &[Job { order: ident.clone(), run_cfg: cfg.clone(), pool: 1 }], false, 20);
+        let b = forked(fx, &batch, &[Job { order: rev, run_cfg: cfg.clone(), pool: 1 }], false, 20);
+        let fmt = fmt_table(fx, &batch);
+        ctx.emit(idx, case_line(fx, &a, &batch, &ident, Some(1), true, &fmt), out_line(&a.jobs[0]));
+        ctx.count("corpus_rounded_cache");
+        if let (RunOut::Ok(ra), RunOut::Ok(rb)) = (&a.jobs[0], &b.jobs[0]) {
+            if sorted(ra.clone()) != sorted(rb.clone()) {
+                let diff = ra.iter().find(|r| !rb.contains(r)).cloned().unwrap_or_default();
+                ctx.fail(idx, "cache/order-dependent", format!("energy model with float_cache_policy key_precisions [0, 0]: the batch in reverse order (fresh process, parallelism 1) returns different responses; e.g. only in the forward run: {}", clip(&decode(&diff).to_string())));
+                ctx.nontrivial(&format!("cache|{}", attempt));
+                return;
+            }
+        }
+    }
+}
+
 fn gq(q: Value, expect: Expect, kind: &'static str, danger: Option<&'static str>) -> GenQ {
     GenQ { q, expect, kind, danger, fail_key: None }
 }
@@ -1726,6 +1784,11 @@ pub fn run(ctx: &mut Ctx, profile: Profile) -> &'static str {
         }
         id += 1;
     }
+    // the energy model (no cache): vehicle names in the queries, unknown vehicles among the failing ones
+    if let Some(f) = make_fixture(&root, id, &mut frng, "grid_energy", vec![PluginSpec::Grid], Traversal::Energy { cache: false }, false, None, 4, true) {
+        fixtures.push(f);
+    }
+    id += 1;
     // configured parallelism 0 (a configuration error, not a query)
     let zero = make_fixture(&root, id, &mut frng, "none_parallelism_0", vec![], Traversal::Distance, false, None, 0, true);
     let find = |label: &str| fixtures.iter().position(|f| f.0.label == label);
@@ -1814,6 +1877,14 @@ pub fn run(ctx: &mut Ctx, profile: Profile) -> &'static str {
         run_case(ctx, fx, *pc, &b, simple(vec![None, Some(1)], 2), "corpus_sibling_loss", 20);
     }
 
+    // ---- the shared prediction cache (C08 finding predict/cache-key-collision, seen from the batch) ----
+    if profile == Profile::C06 {
+        id += 1;
+        if let Some((fx, _)) = make_fixture(&root, id, &mut frng, "energy_rounded_cache", vec![], Traversal::Energy { cache: true }, false, None, 1, true) {
+            cache_demo(ctx, &fx, &mut frng);
+        }
+    }
+
     // ---- load balancing alone ----
     let nb = ctx.n(150, 3000);
     for k in 0..nb {
@@ -1858,7 +1929,7 @@ pub fn run(ctx: &mut Ctx, profile: Profile) -> &'static str {
         };
         let gens: Vec<GenQ> = (0..size).map(|_| gen_query(fx, &mut rng, profile)).collect();
         let plans = plan_jobs(&mut rng, fx, *pc, size, profile, thorough);
-        run_case(ctx, fx, *pc, &gens, plans, if profile == Profile::C06 { "generated_batch" } else { "mutated_batch" }, 30);
+        run_case(ctx, fx, *pc, &gens, plans, if profile == Profile::C06 { "generated_batch" } else { "mutated_batch" }, 10);
     }
     drop(fixtures);
     drop(zero);
